@@ -1158,39 +1158,6 @@ theorem nextlayer_child_invariant [DecidableEq Cmd] (Q : Layer σc Ev Cmd Reply 
 
 /-! ### the layer behaves like a sequential blocking interpreter (round 4) -/
 
-/-- result of the reference interpreter -/
-structure SeqCfg (σ Ev Cmd Reply : Type) where
-  st      : σ
-  waiting : Option (Cmd × (Reply → Gen σ Cmd Reply))   -- the handler in progress, blocked on this command
-  log     : List (Entry Ev Cmd Reply)
-  out     : Out Cmd
-  todo    : List (Event Ev Cmd Reply)                   -- events whose handler has not been started
-  unused  : List Reply
-
-/-- **Reference semantics: blocking code.**  One thread of control, no queue, no command matching, no
-    interleaving: `xs` are the events to handle, `rs` the answers to the blocking commands in the order the
-    commands are issued.  If a handler is in progress and blocked, it takes the next answer and continues
-    (`run` = execute until the handler returns or blocks again); only when no handler is in progress is the
-    next event taken and its handler started — the handler bound in the CURRENT state.  It stops when it needs
-    an answer / an event that is not there. -/
-def seq (H : Handler σ Ev Cmd Reply) (nil : Reply) (st : σ) (waiting : Option (Cmd × (Reply → Gen σ Cmd Reply)))
-    (log : List (Entry Ev Cmd Reply)) (out : Out Cmd) (xs : List (Event Ev Cmd Reply)) (rs : List Reply) :
-    SeqCfg σ Ev Cmd Reply :=
-  match waiting with
-  | some (c, k) =>
-    match rs with
-    | [] => ⟨st, some (c, k), log, out, xs, []⟩
-    | r :: rs' =>
-      seq H nil (run (Ev := Ev) nil (k r)).st (run (Ev := Ev) nil (k r)).paused
-        (log ++ .resume c r :: (run (Ev := Ev) nil (k r)).ents) (out ++ (run (Ev := Ev) nil (k r)).out) xs rs'
-  | none =>
-    match xs with
-    | [] => ⟨st, none, log, out, [], rs⟩
-    | ev :: xs' =>
-      seq H nil (run (Ev := Ev) nil (H st ev)).st (run (Ev := Ev) nil (H st ev)).paused
-        (log ++ .handle ev :: (run (Ev := Ev) nil (H st ev)).ents) (out ++ (run (Ev := Ev) nil (H st ev)).out) xs' rs
-termination_by xs.length + rs.length
-
 /-- the answers carried by a list of completions -/
 def repliesOf : List (Event Ev Cmd Reply) → List Reply
   | [] => []
@@ -1484,6 +1451,140 @@ theorem nextlayer_child_sequential [DecidableEq Cmd] (P : NLParams Ev Cmd Reply)
   rw [← ht] at hs
   exact hs
 
+
+/-! ### a layer pauses only on commands it issued as blocking itself — single layer, state-indexed (round 5) -/
+
+/-- every blocking (`blocking is True`) yield of the generator is an `own` command, and every attribute state the
+    generator passes through satisfies `inv` (e.g. "my index is i") -/
+inductive BlocksOwn (own : Cmd → Prop) (inv : σ → Prop) : Gen σ Cmd Reply → Prop where
+  | done (s) : inv s → BlocksOwn own inv (.done s)
+  | yield (s c b k) : inv s → (b = Blk.yes → own c) → (∀ r, BlocksOwn own inv (k r)) → BlocksOwn own inv (.yield s c b k)
+
+structure OInv (own : Cmd → Prop) (inv : σ → Prop) (L : Layer σ Ev Cmd Reply) : Prop where
+  st : inv L.st
+  logs : ∀ c ∈ pausedOn L.log, own c
+  cont : ∀ c k, L.paused = some (c, k) → ∀ r, BlocksOwn own inv (k r)
+
+private theorem run_blocksOwn (own : Cmd → Prop) (inv : σ → Prop) (nil : Reply) (g : Gen σ Cmd Reply)
+    (hg : BlocksOwn own inv g) :
+    inv (run (Ev := Ev) nil g).st ∧ (∀ c ∈ pausedOn (run (Ev := Ev) nil g).ents, own c) ∧
+    (∀ c k, (run (Ev := Ev) nil g).paused = some (c, k) → ∀ r, BlocksOwn own inv (k r)) := by
+  induction hg with
+  | done s hs => simpa [run, pausedOn] using hs
+  | yield s c b k hs hb hk ih =>
+    cases b with
+    | yes =>
+      refine ⟨by simpa [run] using hs, by simpa [run, pausedOn] using hb rfl, ?_⟩
+      intro c' k' h
+      simp only [run, Option.some.injEq, Prod.mk.injEq] at h
+      obtain ⟨_, rfl⟩ := h
+      exact hk
+    | no => simpa [run, pausedOn] using ih nil
+    | owned => simpa [run, pausedOn] using ih nil
+
+private theorem oinv_fresh (own : Cmd → Prop) (inv : σ → Prop) (H : Handler σ Ev Cmd Reply) (nil : Reply)
+    (hH : ∀ s ev, inv s → BlocksOwn own inv (H s ev)) (L : Layer σ Ev Cmd Reply) (ev : Event Ev Cmd Reply)
+    (h : OInv own inv L) : OInv own inv (handleFresh H nil L ev).1 := by
+  obtain ⟨a, b, c⟩ := run_blocksOwn (Ev := Ev) own inv nil (H L.st ev) (hH _ _ h.st)
+  refine ⟨a, ?_, c⟩
+  intro x hx
+  simp only [handleFresh, pausedOn_append, pausedOn, List.mem_append] at hx
+  rcases hx with hx | hx
+  · exact h.logs x hx
+  · exact b x hx
+
+private theorem oinv_drain (own : Cmd → Prop) (inv : σ → Prop) (H : Handler σ Ev Cmd Reply) (nil : Reply)
+    (hH : ∀ s ev, inv s → BlocksOwn own inv (H s ev)) (q : List (Event Ev Cmd Reply)) :
+    ∀ (L : Layer σ Ev Cmd Reply), OInv own inv L → OInv own inv (drain H nil L q).1 := by
+  induction q with
+  | nil => intro L h; exact ⟨h.st, h.logs, h.cont⟩
+  | cons ev rest ih =>
+    intro L h
+    cases hp : L.paused with
+    | some pk => simp only [drain, hp]; exact ⟨h.st, h.logs, fun c k a => h.cont c k (by simpa [hp] using a)⟩
+    | none => simp only [drain, hp]; exact ih _ (oinv_fresh own inv H nil hH L ev h)
+
+/-- one `handle_event` call preserves: the state invariant, "every pause so far was on an own command", and the
+    same for whatever the suspended generator will do -/
+theorem oinv_step [DecidableEq Cmd] (own : Cmd → Prop) (inv : σ → Prop) (H : Handler σ Ev Cmd Reply) (nil : Reply)
+    (hH : ∀ s ev, inv s → BlocksOwn own inv (H s ev)) (L : Layer σ Ev Cmd Reply) (ev : Event Ev Cmd Reply)
+    (h : OInv own inv L) : OInv own inv (handleEvent H nil L ev).1 := by
+  have h' : OInv own inv { L with arrived := L.arrived ++ [ev] } := ⟨h.st, h.logs, h.cont⟩
+  cases hp : L.paused with
+  | none => rw [he_idle H nil L ev hp]; exact oinv_fresh own inv H nil hH _ ev h'
+  | some pk =>
+    obtain ⟨c, k⟩ := pk
+    by_cases hm : ∃ r, ev = .completed c r
+    · obtain ⟨r, rfl⟩ := hm
+      rw [he_match H nil L c k r hp]
+      simp only [resumeWith]
+      apply oinv_drain own inv H nil hH
+      obtain ⟨a, b, d⟩ := run_blocksOwn (Ev := Ev) own inv nil (k r) (h.cont c k hp r)
+      refine ⟨a, ?_, d⟩
+      intro x hx
+      simp only [pausedOn_append, pausedOn, List.mem_append] at hx
+      rcases hx with hx | hx
+      · exact h.logs x hx
+      · exact b x hx
+    · rw [he_other H nil L c k ev hp (fun r h => hm ⟨r, h⟩)]
+      exact ⟨h.st, h.logs, fun c' k' a => h.cont c' k' (by simpa [enqueue] using a)⟩
+
+/-- **A layer pauses only on commands its own generator issued as blocking** — whole histories, any handler whose
+    blocking yields are `own` (relayed commands of children never are `blocking is True`, see below), with the
+    notion of "own" allowed to depend on an invariant of the layer's state -/
+theorem pauses_only_on_own_blocking [DecidableEq Cmd] (own : Cmd → Prop) (inv : σ → Prop) (H : Handler σ Ev Cmd Reply)
+    (nil : Reply) (hH : ∀ s ev, inv s → BlocksOwn own inv (H s ev)) (s0 : σ) (h0 : inv s0)
+    (evs : List (Event Ev Cmd Reply)) :
+    inv (runSched H nil (Layer.init s0) evs).st ∧ ∀ c ∈ pausedOn (runSched H nil (Layer.init s0) evs).log, own c := by
+  have key : ∀ (evs : List (Event Ev Cmd Reply)) (L : Layer σ Ev Cmd Reply),
+      OInv own inv L → OInv own inv (runSched H nil L evs) := by
+    intro evs
+    induction evs with
+    | nil => intro L h; exact h
+    | cons ev rest ih => intro L h; exact ih _ (oinv_step own inv H nil hH L ev h)
+  have := key evs (Layer.init s0) ⟨h0, by simp [Layer.init, pausedOn], by simp [Layer.init]⟩
+  exact ⟨this.st, this.logs⟩
+
+/-- a parent generator whose own yields are `own` commands and whose states satisfy `invp` -/
+inductive POwns (own : Cmd → Prop) (invp : σp → Prop) : PGen σp Ev Cmd Reply → Prop where
+  | done (s) : invp s → POwns own invp (.done s)
+  | yield (s c b k) : invp s → own c → (∀ r, POwns own invp (k r)) → POwns own invp (.yield s c b k)
+  | child (s i ev k) : invp s → POwns own invp k → POwns own invp (.child s i ev k)
+
+private theorem relay_blocksOwn {τ : Type} (own : Cmd → Prop) (inv : τ → Prop) (s : τ) (hs : inv s) (o : Out Cmd)
+    (ho : ∀ x ∈ o, x.2 ≠ Blk.yes) (g : Gen τ Cmd Reply) (hg : BlocksOwn own inv g) :
+    BlocksOwn own inv (relay s o g) := by
+  induction o with
+  | nil => exact hg
+  | cons x t ih =>
+    obtain ⟨c, b⟩ := x
+    exact .yield _ _ _ _ hs (fun hb => absurd hb (ho (c, b) (by simp)))
+      (fun _ => ih (fun x hx => ho x (by simp [hx])))
+
+/-- lowering a parent generator over ANY children: the only `blocking is True` yields are the parent's own -/
+theorem lower_blocksOwn [DecidableEq Cmd] (own : Cmd → Prop) (invp : σp → Prop)
+    (Hc : Nat → Handler σc Ev Cmd Reply) (nil : Reply) (g : PGen σp Ev Cmd Reply) (hg : POwns own invp g) :
+    ∀ chs : List (Layer σc Ev Cmd Reply),
+      BlocksOwn own (fun st : σp × List (Layer σc Ev Cmd Reply) => invp st.1) (lower Hc nil g chs) := by
+  induction hg with
+  | done s hs => intro chs; exact .done _ hs
+  | yield s c b k hs hc _ ih => intro chs; exact .yield _ _ _ _ hs (fun _ => hc) (fun r => ih r chs)
+  | child s i ev k hs _ ih =>
+    intro chs
+    cases hi : chs[i]? with
+    | none => simpa [lower, hi] using ih chs
+    | some ch =>
+      simp only [lower, hi]
+      exact relay_blocksOwn own (fun st : σp × List (Layer σc Ev Cmd Reply) => invp st.1) _ hs _
+        (emitted_never_blocking_true (Hc i) nil ch ev) _ (ih _)
+
+theorem flat_blocksOwn (own : Cmd → Prop) (invp : σp → Prop) (g : PGen σp Ev Cmd Reply) (hg : POwns own invp g) :
+    BlocksOwn own invp g.flat := by
+  induction hg with
+  | done s hs => exact .done _ hs
+  | yield s c b k hs hc _ ih => exact .yield _ _ _ _ hs (fun _ => hc) ih
+  | child s i ev k _ _ ih => exact ih
+
 end generic
 
 /-! ### the interpreted programs of the correspondence run satisfy the hypotheses above -/
@@ -1595,6 +1696,66 @@ theorem nextlayer_tree_in_order (P : NLParams Ev Cmd Reply) (d : Nat) (L0 : Laye
     (h0 : FreshTree d L0) (evs : List E) : AllInv d (nlRunSched P (HT d) 0 (nlInit L0) evs).st.child :=
   nextlayer_child_invariant (AllInv d) P (HT d) 0 (fun ch ev h => tree_step d ch ev h) L0
     (fresh_arrived d L0 h0) (allInv_fresh d L0 h0) evs
+
+
+/-! #### in a tree of any shape every layer pauses only on its own commands (clause "blocking one layer never
+    blocks the layers above it", for whole trees and whole histories) -/
+
+private theorem runActsN_powns (ev : E) (acts : List Act) (i : Nat) :
+    ∀ n : Node, n.idx = i → POwns (fun c : Cmd => c.layer = i) (fun m : Node => m.idx = i) (runActsN ev acts n) := by
+  induction acts with
+  | nil => intro n hn; exact .done n hn
+  | cons a t ih =>
+    intro n hn
+    cases a with
+    | y label b => exact .yield _ _ _ _ hn hn (fun r => ih _ hn)
+    | ch j => exact .child _ _ _ _ hn (ih n hn)
+    | sw m => exact ih { n with mode := m } hn
+
+/-- every layer of the tree, at any depth: its index never changes, every pause in its trace is on a command
+    carrying its own index, and the same holds for the child layers captured by suspended generators -/
+def TreeOwn : (d : Nat) → Layer (TS d) Ev Cmd Reply → Prop
+  | 0, L => ∃ i, OInv (fun c : Cmd => c.layer = i) (fun m : Node => m.idx = i) L
+  | d + 1, L => (∃ i, OInv (fun c : Cmd => c.layer = i)
+        (fun st : Node × List (Layer (TS d) Ev Cmd Reply) => st.1.idx = i) L) ∧
+      CInv (σp := Node) (TreeOwn d) (fun _ => HT d) 0 L
+
+theorem tree_own_step : ∀ (d : Nat) (L : Layer (TS d) Ev Cmd Reply) (ev : E), TreeOwn d L →
+    TreeOwn d (handleEvent (HT d) 0 L ev).1
+  | 0, L, ev, ⟨i, h⟩ =>
+    ⟨i, oinv_step _ _ (HT 0) 0
+      (fun n e hn => flat_blocksOwn _ _ _ (runActsN_powns e _ i n hn)) L ev h⟩
+  | d + 1, L, ev, ⟨⟨i, h⟩, hc⟩ =>
+    ⟨⟨i, oinv_step _ _ (HT (d + 1)) 0
+        (fun st e hn => lower_blocksOwn _ _ (fun _ => HT d) 0 _ (runActsN_powns e _ i st.1 hn) st.2) L ev h⟩,
+     children_step (TreeOwn d) interpN (fun _ => HT d) 0 (fun _ ch ev' h' => tree_own_step d ch ev' h') L ev hc⟩
+
+private theorem treeOwn_fresh : ∀ (d : Nat) (L : Layer (TS d) Ev Cmd Reply), FreshTree d L → TreeOwn d L
+  | 0, L, h => by
+    obtain ⟨n, rfl⟩ := h
+    exact ⟨n.idx, ⟨rfl, by simp [Layer.init, pausedOn], by simp [Layer.init]⟩⟩
+  | d + 1, L, h => by
+    obtain ⟨n, chs, rfl, hk⟩ := h
+    exact ⟨⟨n.idx, ⟨rfl, by simp [Layer.init, pausedOn], by simp [Layer.init]⟩⟩,
+           ⟨fun ch hc => treeOwn_fresh d ch (hk ch hc), by simp [Layer.init]⟩⟩
+
+/-- **Blocking one layer never blocks the layers above it — for whole trees.**  In a layer tree of any depth and
+    branching with re-bindable handlers, after any schedule delivered to the root, every layer has only ever
+    paused on commands carrying its own index: no layer is ever paused because a descendant blocks. -/
+theorem tree_layers_pause_only_on_own (d : Nat) (L0 : Layer (TS d) Ev Cmd Reply) (h0 : FreshTree d L0)
+    (evs : List E) : TreeOwn d (runSched (HT d) 0 L0 evs) := by
+  have key : ∀ (evs : List E) (L : Layer (TS d) Ev Cmd Reply), TreeOwn d L → TreeOwn d (runSched (HT d) 0 L evs) := by
+    intro evs
+    induction evs with
+    | nil => intro L h; exact h
+    | cons ev rest ih => intro L h; exact ih _ (tree_own_step d L ev h)
+  exact key evs L0 (treeOwn_fresh d L0 h0)
+
+/-- the same behind a NextLayer -/
+theorem nextlayer_tree_pause_only_on_own (P : NLParams Ev Cmd Reply) (d : Nat) (L0 : Layer (TS d) Ev Cmd Reply)
+    (h0 : FreshTree d L0) (evs : List E) : TreeOwn d (nlRunSched P (HT d) 0 (nlInit L0) evs).st.child :=
+  nextlayer_child_invariant_any (TreeOwn d) P (HT d) 0 (fun ch ev h => tree_own_step d ch ev h) L0
+    (treeOwn_fresh d L0 h0) evs
 
 /-- a parent in the tree is never paused by a command of a descendant: it pauses only on commands carrying
     its own index (instance of `parent_pauses_only_on_own_commands`; the index is part of the node state) -/
